@@ -248,7 +248,7 @@ package headers
 //@   loop 1
 //@     modifies elems(list)
 //@     invariant 0 <= i && i <= count && height == atentry(height) - i && len(list) == count && sameregion(list)
-//@     invariant forall(k, 0, i, ancv(b, atentry(height) - k) != nil && list[count-k-1] != nil && loopfresh(list[count-k-1]) && list[count-k-1].time == tm(ancv(b, atentry(height) - k)) && list[count-k-1].work == ancv(b, atentry(height) - k).AccumulatedWork)
+//@     invariant forall(j, count-i, count, list[j] != nil && loopfresh(list[j]) && ancv(b, atentry(height) - (count-1-j)) != nil && list[j].time == tm(ancv(b, atentry(height) - (count-1-j))) && list[j].work == ancv(b, atentry(height) - (count-1-j)).AccumulatedWork)
 
 //@ func (Branch).Target
 //@   ensures [C02.target-defined] (result1 == nil) == daaDefined(b, height)
